@@ -8,6 +8,7 @@ import Vicut.Model.Args
 import Vicut.Model.Linewise
 import Vicut.Model.Reader
 import Vicut.Model.Files
+import Vicut.Model.Text
 
 open Lean Vicut
 
@@ -114,6 +115,29 @@ def opInplace (req : Json) : Json :=
   let r := runInplace proc backup files fs
   Json.mkObj [("exit", r.exit), ("fs", Json.arr (r.fs.map (fun e => Json.arr #[J e.1, J e.2])).toArray)]
 
+def gsOf (req : Json) : List Gr := (jarr req "gs").toList.map (fun j => (j.getStr?.toOption.getD "").toList)
+
+/-- `{"op":"geometry","gs":[graphemes]}`: total_lines and line_bounds(n) for n in 0..=total+1. -/
+def opGeometry (req : Json) : Json :=
+  let gs := gsOf req
+  let total := totalLines gs
+  let bounds := (List.range (total + 2)).map fun n =>
+    match lineBounds gs n with
+    | some (s, e) => Json.arr #[(s : Json), (e : Json)]
+    | none => Json.null
+  Json.mkObj [("total_lines", total), ("bounds", Json.arr bounds.toArray), ("max", gs.length)]
+
+/-- `{"op":"global","gs":[..],"polarity":b,"matches":[[text,bool]..]}`: the lines `-g`/`-v` visit.
+`matches` is the regex engine's verdict on every candidate haystack (from the hook's `regex` op). -/
+def opGlobal (req : Json) : Json :=
+  let gs := gsOf req
+  let table : List (Str × Bool) := (jarr req "matches").toList.map fun e =>
+    match e with
+    | .arr #[.str t, .bool b] => (t.toList, b)
+    | _ => ([], false)
+  let isMatch : Str → Bool := fun t => ((table.find? (fun e => e.1 == t)).map (·.2)).getD false
+  Json.mkObj [("lines", Json.arr ((globalLines isMatch (jbool req "polarity") gs).map (fun (n : Nat) => (Json.num n : Json))).toArray)]
+
 def dispatch (req : Json) : Json :=
   match jstr req "op" with
   | "ping" => Json.mkObj [("pong", true)]
@@ -122,6 +146,8 @@ def dispatch (req : Json) : Json :=
   | "parse_argv" => opParseArgv req
   | "keys" => opKeys req
   | "inplace" => opInplace req
+  | "geometry" => opGeometry req
+  | "global" => opGlobal req
   | op => Json.mkObj [("err", Json.str s!"unknown op {op}")]
 
 partial def loop (h : IO.FS.Stream) (out : IO.FS.Stream) : IO Unit := do
